@@ -48,6 +48,16 @@ func ZZ_C07_nodesReturn() {
 	for i := 1; i < nNodes; i++ {
 		c.Pods = append(c.Pods, zzPod("active-pod"+zzNodeName(i), zzNodeName(i), rsActive.Name, zzHashOld, 0, corev1.PodRunning, true, nondet.Base().Add(-3600*1e9)))
 	}
+	// the former canary node may be one only the failed template could use (the active template has a node
+	// selector the failed one dropped): the canary pod there is still removed by the active replica set —
+	// nobody else would — and nothing is created in its place
+	unfit := nondet.Bool("formerCanaryNodeUnfitForTheActiveTemplate")
+	if unfit {
+		rsActive.Spec.Template.Spec.NodeSelector = map[string]string{"pool": "old"}
+		for i := 1; i < nNodes; i++ {
+			c.Nodes[i].Labels = map[string]string{"pool": "old"}
+		}
+	}
 	// which replica set syncs first
 	failedFirst := nondet.Bool("failedReplicaSetSyncsFirst")
 	order := []string{rsActive.Name, rsFailed.Name}
@@ -79,25 +89,30 @@ func ZZ_C07_nodesReturn() {
 		}
 		if e.Verb == "create" {
 			p := e.Obj.(*corev1.Pod)
-			nondet.Assert("C07.return.creates-active-template", fakeapi.PodNode(p) == zzNodeName(0) && p.Annotations[datadoghqv1alpha1.MD5ExtendedDaemonSetAnnotationKey] == zzHashOld)
+			nondet.Assert("C07.return.creates-active-template", !unfit && fakeapi.PodNode(p) == zzNodeName(0) && p.Annotations[datadoghqv1alpha1.MD5ExtendedDaemonSetAnnotationKey] == zzHashOld)
 			createdOnNode0 = true
 		}
 	}
 	if canaryPodLeft {
 		// "subsequently replaces the canary pods by pods of the active template on the former canary nodes"
 		nondet.Assert("C07.return.canary-pod-replaced", deletedCanary)
-	} else {
+	} else if !unfit {
 		nondet.Assert("C07.return.node-served", createdOnNode0)
 	}
 	// and the active replica set counts the node again
 	for _, s := range c.ERS {
 		if s.Name == rsActive.Name {
-			nondet.Assert("C07.return.desired-all-nodes", int(s.Status.Desired) == nNodes)
+			want := nNodes
+			if unfit {
+				want = nNodes - 1
+			}
+			nondet.Assert("C07.return.desired-all-nodes", int(s.Status.Desired) == want)
 		}
 	}
 	nondet.Observe("deleted", deletedCanary)
 	nondet.Reach("C07.return.replaced", deletedCanary)
 	nondet.Reach("C07.return.created", createdOnNode0)
+	nondet.Reach("C07.return.cleaned-on-unfit-node", unfit && deletedCanary)
 }
 
 // ZZ_C07_userFailedSurvives: "marked failed, automatically or by the user": kubectl-eds canary
